@@ -895,11 +895,29 @@ def check_registrations(case):
             want_o = tb.propagate_uv(rv, real_off, float(constants.Earth.mu))   # mu as the library defines it
             # (tolerance = accuracy of the library's Kepler propagator, C05's subject: its Kepler equation is solved
             #  to ~1e-8 rad - 0.15 m seen at 17 000 km; a frozen or misdated offset is off by kilometres)
-            if (np.linalg.norm(origin[:3] - want_o[:3]) > 2e-7 * np.linalg.norm(want_o[:3]) * (1 if real_off else 1e-6) + 1e-6
-                    or np.linalg.norm(origin[3:] - want_o[3:]) > 2e-7 * np.linalg.norm(want_o[3:]) * (1 if real_off else 1e-6) + 1e-9):
+            if (np.linalg.norm(origin[:3] - want_o[:3]) > 2e-7 * np.linalg.norm(want_o[:3]) * (1 if real_off else 1e-4) + 1e-6
+                    or np.linalg.norm(origin[3:] - want_o[3:]) > 2e-7 * np.linalg.norm(want_o[3:]) * (1 if real_off else 1e-4) + 1e-9):
                 raise Violation("frame-origin", f"orbit frame '{name}' ({op['orientation']}) whose reference orbit is dated "
                                 f"{real_off} s before the probe: its origin is at {origin.tolist()} in {op['frame']}, two-body "
                                 f"motion puts the orbit at {want_o.tolist()}")
+            if op["orientation"] in ("QSW", "TNW"):
+                # ... and its axes are those of THIS orbit (whatever other orbit frames were registered or served
+                # before at this date): 1 km along the radius vector (QSW) / the velocity (TNW) of the frame's own
+                # origin lands on the x axis, 1 km along its angular momentum on the z axis
+                rr, vv = origin[:3], origin[3:]
+                w_ = np.cross(rr, vv)
+                w_ = w_ / np.linalg.norm(w_)
+                x_ = (rr / np.linalg.norm(rr)) if op["orientation"] == "QSW" else (vv / np.linalg.norm(vv))
+                for axis, vec in ((0, x_), (2, w_)):
+                    pt_ = StateVector(list(rr + 1000.0 * vec) + list(vv), date, "cartesian", op["frame"]).copy(frame=name)
+                    want_p = np.zeros(3)
+                    want_p[axis] = 1000.0
+                    miss = float(np.linalg.norm(arr(pt_)[:3] - want_p))
+                    worst = max(worst, miss / 1e-3)
+                    if not miss <= 1e-3:
+                        raise Violation("frame-axes", f"orbit frame '{name}' ({op['orientation']}, registered at step {step}): a "
+                                        f"point 1 km along the {'xyz'[axis]} axis of its own orbit lands at "
+                                        f"{arr(pt_)[:3].tolist()} (off by {miss:.3g} m)")
         elif op["op"] == "attached":
             pool = [g for g in generated if g[1] == "station"] if op["prefer_station"] else []
             pool = pool or generated or [("ITRF", "builtin"), ("EME2000", "builtin")]
